@@ -99,9 +99,9 @@ PROPS = {
     },
     "C03": {
         "pkg": "hreader", "test": "TestC03", "level": "exploration",
-        "quick": T(16, 0, timeout=900, tests=[{"test": "TestC03", "checks": 60}, {"test": "TestC03_Resume", "checks": 40}]),
-        "thorough": T(16, 0, timeout=7000, tests=[{"test": "TestC03", "checks": 2000}, {"test": "TestC03_Resume", "checks": 1500}]),
-        "rule": "TestC03_Resume: phase 1 emits a prefix of 2..3 skewed streams sharing the channel; checkpoints are taken from the last emitted pack of every stream as the server persists them; the manager is closed (pause of the target or process restart with a fresh ts manager) and a new one resumes a drawn subset in a drawn order; oracle: channel time never goes back across the resume + the full oracle on phase 2. "
+        "quick": T(16, 0, timeout=900, tests=[{"test": "TestC03", "checks": 60}, {"test": "TestC03_Resume", "checks": 40}, {"test": "TestC03_SharedPositions", "checks": 30, "shards": 8}]),
+        "thorough": T(16, 0, timeout=7000, tests=[{"test": "TestC03", "checks": 2000}, {"test": "TestC03_Resume", "checks": 1500}, {"test": "TestC03_SharedPositions", "checks": 1500}]),
+        "rule": "TestC03_SharedPositions: 2..3 collections on one source channel receive twin packs that share their position objects (as the pinned msgdispatcher hands them out); full C03 oracle on the output. TestC03_Resume: phase 1 emits a prefix of 2..3 skewed streams sharing the channel; checkpoints are taken from the last emitted pack of every stream as the server persists them; the manager is closed (pause of the target or process restart with a fresh ts manager) and a new one resumes a drawn subset in a drawn order; oracle: channel time never goes back across the resume + the full oracle on phase 2. "
                 "TestC03: 2..4 source streams (clock skew 0 ms .. 10 min, nil/pchannel positions, 1..5 packs of 0..3 insert/delete messages, BeginTs=0 first packs, tick-only packs, equal-timestamp groups) multiplexed onto one downstream channel; "
                 "75% of the cases run under a drawn schedule: the verif yield hook parks a stream goroutine between 'pack computed' and 'pack enqueued' and the schedule decides which parked pack is released next while other streams are fed; "
                 "oracle on the sequence read from GetMsgChan: every pack ends with a tick, closing ticks never decrease, every message is later than all earlier closing ticks and not later than its own, begin/end/message/row/position times of data packs agree, "
